@@ -6,6 +6,7 @@ import (
 	"fmt"
 	"iter"
 	"testing"
+	"time"
 
 	"pgregory.net/rapid"
 
@@ -463,10 +464,158 @@ func TestC08(t *testing.T) {
 	}), c08Prop(t, r, "marker_sweep"))
 
 	hx.Rapid(r, t, "generated_headers", r.N(3000, 40000), genC08, c08Prop(t, r, "generated_headers"))
+	hx.Rapid(r, t, "fault_after_history", r.N(800, 10000), genC08History, c08HistoryProp(t, r, "fault_after_history"))
 
 	hx.Rapid(r, t, "plugin_notifications", r.N(2500, 30000), func(rt *rapid.T) c08Notif {
 		n := pick(rt, "dlen", 0, 1, 1, 2, 3, 255, 256, 4074, 4075, rapid.IntRange(0, 4075).Draw(rt, "dlenr"))
 		return c08Notif{Out: rapid.Bool().Draw(rt, "out"), FromUpd: rapid.Bool().Draw(rt, "fromupd"),
 			N: world.NotifSpec{Code: rapid.Byte().Draw(rt, "code"), Sub: rapid.Byte().Draw(rt, "sub"), Data: genBytesN(rt, "data", n)}}
 	}, c08NotifProp(t, r))
+}
+
+// ---- a fault after a history of traffic
+
+// The NOTIFICATION must reach the wire whatever the session has been through:
+// a timed history of local WriteUpdate calls and remote KEEPALIVEs (virtual
+// time, several hold times long) precedes the faulty header.
+type c08History struct {
+	Out       bool   `json:"out"`
+	Hold      int    `json:"hold"`       // local and remote hold time (s)
+	WriteMs   int    `json:"write_ms"`   // gap between local WriteUpdate calls (0: none)
+	WriteFrom int    `json:"write_from"` // the local writes begin that long after establishment
+	RemoteMs  int    `json:"remote_ms"`  // gap between remote KEEPALIVEs
+	RemoteUpd bool   `json:"remote_upd"` // the remote sends UPDATEs instead of KEEPALIVEs
+	DurMs     int    `json:"dur_ms"`     // length of the history
+	TailMs    int    `json:"tail_ms"`    // quiet time between the last write and the fault
+	Fault     string `json:"fault"`      // marker len type
+}
+
+func c08HistoryProp(t *testing.T, r *hx.Run, sub string) func(c c08History) hx.Verdict {
+	return func(c c08History) hx.Verdict {
+		r.SetCurrent(sub, c)
+		v := hx.Verdict{Class: fmt.Sprintf("hold=%d/writes=%v/longer-than-hold=%v/%s", c.Hold, c.WriteMs > 0, c.DurMs > c.Hold*1000, c.Fault)}
+		if c.DurMs > c.Hold*1000 {
+			v.NT = fmt.Sprintf("%+v", c)
+		}
+		p := basePeer(c.Out)
+		p.Hold = c.Hold
+		var dev *hx.Dev
+		fail := func(key, f string, a ...any) {
+			if dev == nil {
+				dev = hx.Devf(key, f, a...)
+			}
+		}
+		o, serr := world.Single(t, "10.0.0.1", p, c.Out, nil, func(w *world.World, conn *memnet.Conn) {
+			for _, m := range handshakeBytes(p, conn, stEstablished, uint16(c.Hold)) {
+				conn.RemoteSend(m, nil)
+				w.Settle()
+			}
+			if w.Sessions(p.Remote) != 1 {
+				fail("setup", "session did not establish")
+				return
+			}
+			nextW, nextR := time.Duration(c.WriteFrom+c.WriteMs)*time.Millisecond, time.Duration(c.RemoteMs)*time.Millisecond
+			start := w.Net.Since()
+			writes, failed := 0, 0
+			// local writes stop after DurMs; the remote keeps the session alive through the quiet tail
+			total := time.Duration(c.DurMs+c.TailMs) * time.Millisecond
+			for {
+				now := w.Net.Since() - start
+				if now >= total {
+					break
+				}
+				if now >= time.Duration(c.DurMs)*time.Millisecond {
+					c.WriteMs = 0
+				}
+				step := total - now
+				if c.WriteMs > 0 && nextW-now < step {
+					step = nextW - now
+				}
+				if nextR-now < step {
+					step = nextR - now
+				}
+				if step > 0 {
+					w.Advance(step)
+				}
+				now = w.Net.Since() - start
+				if c.WriteMs > 0 && now >= nextW {
+					if _, err := w.WriteUpdate(p.Remote, 0, 1, taggedUpdate(uint32(0xB0000000+writes), 12)); err != nil {
+						failed++
+					}
+					writes++
+					nextW += time.Duration(c.WriteMs) * time.Millisecond
+				}
+				if now >= nextR {
+					if c.RemoteUpd {
+						conn.RemoteSend(wire.Frame(wire.TypeUpdate, []byte{0, 0, 0, 0}), nil)
+					} else {
+						conn.RemoteSend(wire.Keepalive(), nil)
+					}
+					nextR += time.Duration(c.RemoteMs) * time.Millisecond
+				}
+				w.Settle()
+				if conn.Snapshot().LocalClosed {
+					msgs, _ := world.Parsed(conn)
+					fail("session-ended-during-history", "the session ended %v into a history without faults (last message from corebgp: type %v; %d of %d WriteUpdate calls failed)", now, firstType(msgs[max(len(msgs)-1, 0):]), failed, writes)
+					return
+				}
+			}
+			before, _ := world.Parsed(conn)
+			hdr := wire.Keepalive()
+			want := wire.Notif{Code: 1}
+			switch c.Fault {
+			case "marker":
+				hdr[7] = 0
+				want.Sub = 1
+			case "len":
+				hdr[16], hdr[17] = 0, 18
+				want.Sub = 2
+			default:
+				hdr[18] = 9
+				want.Sub, want.Data = 3, []byte{9}
+			}
+			conn.RemoteSend(hdr, nil)
+			w.Settle()
+			msgs, perr := world.Parsed(conn)
+			if perr != nil {
+				fail("malformed-output", "%v", perr)
+				return
+			}
+			after := msgs[len(before):]
+			st := conn.Snapshot()
+			if len(after) != 1 || after[0].Type != wire.TypeNotification {
+				fail("no-single-notification", "after %v of traffic (%d local writes, %d failed) a %s fault: corebgp put %d messages on the wire (first type %v), closed=%v; want NOTIFICATION %v", time.Duration(c.DurMs)*time.Millisecond, writes, failed, c.Fault, len(after), firstType(after), st.LocalClosed, want)
+				return
+			}
+			n, _ := wire.ParseNotif(after[0].Body)
+			// data is stated only for the type fault (the offending type octet)
+			if n.Code != want.Code || n.Sub != want.Sub || (c.Fault == "type" && !bytes.Equal(n.Data, want.Data)) {
+				fail("wrong-notification", "%s fault answered with %v, want %v", c.Fault, n, want)
+				return
+			}
+			if !st.LocalClosed {
+				fail("not-closed", "connection still open after the NOTIFICATION")
+			}
+		})
+		if serr != nil {
+			fail("setup", "%v", serr)
+		}
+		if b := o.Bad(); b != "" {
+			fail("wedge", "%s", b)
+		}
+		v.Dev = dev
+		return v
+	}
+}
+
+func genC08History(rt *rapid.T) c08History {
+	c := c08History{Out: rapid.Bool().Draw(rt, "out"), Hold: pick(rt, "hold", 3, 6, 9, 30), Fault: pick(rt, "fault", "marker", "len", "type"),
+		RemoteUpd: rapid.Bool().Draw(rt, "rupd")}
+	h := c.Hold * 1000
+	c.RemoteMs = pick(rt, "rgap", h/3, h/2, h*9/10)
+	c.WriteMs = pick(rt, "wgap", 0, h/30+1, h/6, h/3-1, h/3+1, h/2)
+	c.WriteFrom = pick(rt, "wfrom", 0, h/3+1, h/2, h)
+	c.DurMs = pick(rt, "dur", h/2, h+h/10, 2*h+h/7, 5*h, rapid.IntRange(5, 50).Draw(rt, "durtenths")*h/10)
+	c.TailMs = pick(rt, "tail", 0, 1, h/3-1, h/3+1, h*2/3)
+	return c
 }
